@@ -52,6 +52,7 @@ pub mod kzg10 {
 //@struct file=poly-commit/src/marlin/marlin_pc/data_structures.rs name=Commitment
 //@struct file=poly-commit/src/marlin/marlin_pc/data_structures.rs name=CommitterKey
 //@struct file=poly-commit/src/marlin/marlin_pc/data_structures.rs name=Randomness
+//@struct file=poly-commit/src/marlin/marlin_pc/data_structures.rs name=VerifierKey
 pub open spec fn ck_wf(ck: &CommitterKey) -> bool {
     ck.powers@.len() >= 1
     && (ck.enforced_degree_bounds is Some ==> sorted_usize(ck.enforced_degree_bounds->Some_0@))
@@ -188,21 +189,98 @@ impl MarlinKZG10 {
         res is Ok ==> final(sponge).st@ == sp_iter(old(sponge).st@, open_nsq(labeled_polynomials@, min(labeled_polynomials@.len(), states@.len()))),   // name=marlin_pc.open.squeeze_schedule_matches_verifier props=C11
         res is Ok ==> (forall|i: int| 0 <= i < min(labeled_polynomials@.len(), states@.len()) ==> marlin_admissible_open(ck, (#[trigger] labeled_polynomials@[i]))),   // name=marlin_pc.open.bound_violations_are_refused props=C04,C17
         res is Ok ==> (forall|i: int| 0 <= i < min(labeled_polynomials@.len(), states@.len()) ==> (#[trigger] labeled_polynomials@[i]).degree_bound.is_some() == states@[i].shifted_rand.is_some()),
+        // VALUE: the proof is the KZG10 opening of the challenge-weighted sums of the polynomials and blinding polynomials, plus the
+        // commitment to the challenge-weighted sum of the shifted witnesses of the degree-bounded polynomials
+        res is Ok ==> marlin_open_post(ck, labeled_polynomials@, states@, *point, old(sponge).st@, min(labeled_polynomials@.len(), states@.len()), &res->Ok_0),   // name=marlin_pc.open.proof_opens_the_challenge_weighted_sums props=C01
 //@body
 //@rw * /\b(p|r|shifted_w|shifted_r|shifted_r_witness) \+= \((challenge_j(?:_1)?), ([^;]*)\);/ => \1.add_assign_scaled((\2, \3));
 //@rw * /ck\.shifted_powers\(None\)/ => ck.shifted_powers(None)
 //@rw * /let shifted_witness = shift_polynomial\(ck, &witness, degree_bound\);/ => let shifted_witness = shift_polynomial(ck, &witness, degree_bound);
 //@closure |bounds| => |bounds: &Vec<usize>| -> (sl: &[usize]) ensures sl@ == bounds@
 //@closure |v| => |v: Fr| -> (o: Fr) ensures o@ == f_add(v@, shifted_random_v@)
+//@beforeloop 1
+        let ghost s0 = sponge.st@;
+        let ghost lps = labeled_polynomials@;
+        let ghost sts = states@;
+        let ghost mut ws: Seq<Poly> = Seq::empty();
+        let ghost mut hws: Seq<Option<Poly>> = Seq::empty();
 //@loop 1 kw=for name=it
             invariant ck_wf(ck), it.index@ <= min(labeled_polynomials@.len(), states@.len()),
+                s0 == old(sponge).st@, lps == labeled_polynomials@, sts == states@,
                 sponge.st@ == sp_iter(old(sponge).st@, open_nsq(labeled_polynomials@, it.index@ as nat)),
                 forall|i: int| 0 <= i < labeled_polynomials@.len() ==> (#[trigger] labeled_polynomials@[i]).polynomial.wf() && labeled_polynomials@[i].polynomial.coeffs@.len() < 0x4000_0000_0000_0000,
                 enforce_degree_bound ==> ck.shifted_powers is Some,
                 forall|i: int| 0 <= i < it.index@ ==> marlin_admissible_open(ck, (#[trigger] labeled_polynomials@[i])) && labeled_polynomials@[i].degree_bound.is_some() == states@[i].shifted_rand.is_some(),
                 p.wf(), shifted_w.wf(), p.coeffs@.len() < 0x4000_0000_0000_0000, shifted_w.coeffs@.len() < 0x8000_0000_0000_0000,
+                // value level
+                ws.len() == it.index@, hws.len() == it.index@,
+                m_wit_ok(lps, sts, ws, hws, point@, it.index@ as nat),
+                enforce_degree_bound == m_any_bound(lps, it.index@ as nat),
+                forall|x: FS| #[trigger] p.ev(x) == m_cp(lps, s0, it.index@ as nat, x),
+                forall|x: FS| #[trigger] r.blinding_polynomial.ev(x) == m_cr(lps, sts, s0, it.index@ as nat, x),
+                forall|x: FS| #[trigger] shifted_w.ev(x) == m_csw(ck, lps, ws, s0, it.index@ as nat, x),
+                forall|x: FS| #[trigger] shifted_r.blinding_polynomial.ev(x) == m_csr(lps, sts, s0, it.index@ as nat, x),
+                forall|x: FS| #[trigger] shifted_r_witness.ev(x) == m_csrw(lps, hws, s0, it.index@ as nat, x),
+                r.blinding_polynomial.len() <= m_rlen(sts, it.index@ as nat),
+                shifted_r_witness.len() <= m_hwlen(lps, hws, it.index@ as nat),
 //@loopstart 1
             proof { reveal_with_fuel(sp_iter, 3); }
+            let ghost idx = it.index@ as nat;
+            let ghost ws0 = ws; let ghost hws0 = hws; let ghost sw0 = shifted_w; let ghost srw0 = shifted_r_witness;
+            proof {
+                ws = ws.push(polynomial.polynomial); hws = hws.push(None);
+                lemma_m_ext(ck, lps, sts, ws0, ws, hws0, hws, s0, point@, idx);
+            }
+//@after /let shifted_witness = shift_polynomial/
+                let ghost ws1 = ws; let ghost hws1 = hws;
+                proof {
+                    ws = ws.update(idx as int, witness); hws = hws.update(idx as int, shifted_rand_witness);
+                    lemma_m_ext(ck, lps, sts, ws1, ws, hws1, hws, s0, point@, idx);
+                }
+//@after /if let Some\(shifted_rand_witness\) = shifted_rand_witness \{/
+                proof {
+                    assert(ws[idx as int] == witness && hws[idx as int] == hws1.update(idx as int, hws[idx as int])[idx as int]);
+                    assert(m_xi1(lps, s0, idx) == challenge_j_1@);
+                    assert(lps[idx as int].degree_bound == Some(degree_bound));
+                    assert forall|x: FS| #[trigger] shifted_w.ev(x) == m_csw(ck, lps, ws, s0, idx + 1, x) by {
+                        assert(m_csw(ck, lps, ws, s0, idx, x) == m_csw(ck, lps, ws1, s0, idx, x));
+                        assert(m_csw(ck, lps, ws1, s0, idx, x) == m_csw(ck, lps, ws0, s0, idx, x));
+                        assert(sw0.ev(x) == m_csw(ck, lps, ws0, s0, idx, x));
+                        assert(shifted_witness.ev(x) == m_shw(ck, degree_bound, &witness, x));
+                    }
+                    assert forall|x: FS| #[trigger] shifted_r_witness.ev(x) == m_csrw(lps, hws, s0, idx + 1, x) by {
+                        assert(m_csrw(lps, hws, s0, idx, x) == m_csrw(lps, hws1, s0, idx, x));
+                        assert(m_csrw(lps, hws1, s0, idx, x) == m_csrw(lps, hws0, s0, idx, x));
+                        assert(srw0.ev(x) == m_csrw(lps, hws0, s0, idx, x));
+                    }
+                }
+//@loopend 1
+            proof {
+                if lps[idx as int].degree_bound is None {
+                    assert forall|x: FS| #[trigger] shifted_w.ev(x) == m_csw(ck, lps, ws, s0, idx + 1, x) by {
+                        assert(m_csw(ck, lps, ws, s0, idx, x) == m_csw(ck, lps, ws0, s0, idx, x));
+                        assert(sw0.ev(x) == m_csw(ck, lps, ws0, s0, idx, x));
+                    }
+                    assert forall|x: FS| #[trigger] shifted_r_witness.ev(x) == m_csrw(lps, hws, s0, idx + 1, x) by {
+                        assert(m_csrw(lps, hws, s0, idx, x) == m_csrw(lps, hws0, s0, idx, x));
+                        assert(srw0.ev(x) == m_csrw(lps, hws0, s0, idx, x));
+                    }
+                }
+            }
+//@afterloop 1
+        let ghost kk = min(labeled_polynomials@.len(), states@.len());
+        let ghost gp = p; let ghost gr = r; let ghost gsw = shifted_w; let ghost gsr = shifted_r; let ghost gsrw = shifted_r_witness;
+//@after /let proof = kzg10::KZG10::open\(/
+        let ghost pr0 = proof;
+//@before /Ok\(kzg10::Proof \{/
+        proof {
+            let g = MOpenWit { ws, hws, p: gp, r: gr, pr0, sw: gsw, sr: gsr, srw: gsrw };
+            assert(marlin_open_rel(ck, lps, sts, *point, s0, kk, w@, random_v, g));
+            let ghost rp = kzg10::Proof { w: G1Affine::mk(w@), random_v };
+            assert(rp.w@ == w@);
+            assert(marlin_open_rel(ck, lps, sts, *point, s0, kk, rp.w@, rp.random_v, g));
+            assert(marlin_open_post(ck, lps, sts, *point, s0, kk, &rp));
+        }
 //@end
 }
 impl Poly {
@@ -212,7 +290,7 @@ impl Poly {
                 final(self).coeffs@.len() <= (if old(self).coeffs@.len() >= q.1.coeffs@.len() { old(self).coeffs@.len() } else { q.1.coeffs@.len() }),
     { unimplemented!() }
 }
-//@spec marlin_sched_spec
+//@spec marlin_sched_spec marlin_acc_spec marlin_srs_spec marlin_complete
 // C11, Marlin: prover (open) and verifier (accumulate / check) squeeze the same number of challenges whenever the degree-bound
 // pattern of the polynomials equals that of the commitments, so from equal sponge states they end in equal states
 //@lemma props=C11
@@ -227,4 +305,53 @@ pub open spec fn open_nsq(ps: Seq<&LabeledPolynomial>, k: nat) -> nat decreases 
 pub open spec fn marlin_admissible_open(ck: &CommitterKey, p: &LabeledPolynomial) -> bool {
     p.degree_bound is Some ==> (ck.enforced_degree_bounds is Some && ck.enforced_degree_bounds->Some_0@.contains(p.degree_bound->Some_0)
             && p.polynomial.degree_spec() <= p.degree_bound->Some_0 && p.degree_bound->Some_0 <= ck.max_degree)
+}
+
+// ======================= C01: completeness of MarlinKZG10 (with degree bounds and hiding) as a lemma over the contracts above =======================
+// For keys in trapdoor form (m_srs_ok), commitments as MarlinKZG10::commit returns them (marlin_commit_one = clause
+// marlin_pc.commit.commitments_are_the_key_defined_linear_maps), the true evaluations as claimed values and a proof as MarlinKZG10::open
+// returns it from the same sponge state (marlin_open_post = clause marlin_pc.open.proof_opens_the_challenge_weighted_sums), the relation
+// that MarlinKZG10::check decides (clause marlin_pc.check.relation in units/marlin.rs: kzg_relation_raw on acc_c / acc_v) holds.
+//@lemma props=C01
+pub proof fn lemma_marlin_complete(ck: &CommitterKey, vk: &VerifierKey, beta: FS, lps: Seq<&LabeledPolynomial>, cs: Seq<&LabeledCommitment<Commitment>>, sts: Seq<&Randomness>, vs: Seq<Fr>,
+                                   z: Fr, s: SS, k: nat, proof: &kzg10::Proof)
+    requires
+        m_srs_ok(ck, vk, beta), k <= lps.len(), k <= cs.len(), k <= sts.len(), k <= vs.len(),
+        forall|j: int| 0 <= j < k ==> marlin_commit_one(ck, #[trigger] lps[j], cs[j], sts[j]) && m_lens_ok(ck, lps[j], sts[j]) && vs[j]@ == lps[j].polynomial.ev(z@)
+            && (lps[j].degree_bound is Some ==> shift_of(vk, lps[j].degree_bound->Some_0) is Some),
+        marlin_open_post(ck, lps, sts, z, s, k, proof),
+        m_nondegenerate(lps, sts, s, k, z@),
+    ensures
+        kzg10::kzg_relation_raw(&vk.vk, acc_c(cs, vs, vk, s, k), z, acc_v(cs, vs, s, k), proof)
+{
+    let gw = choose|g: MOpenWit| #[trigger] marlin_open_rel(ck, lps, sts, z, s, k, proof.w@, proof.random_v, g);
+    lemma_marlin_complete_w(ck, vk, beta, lps, cs, sts, vs, z, s, k, proof, gw);
+}
+// the excluded corner cannot occur without hiding: if no degree-bounded polynomial carries a shifted blinding polynomial, SR(z) = 0
+//@lemma props=C01
+pub proof fn lemma_marlin_nonhiding_is_nondegenerate(lps: Seq<&LabeledPolynomial>, sts: Seq<&Randomness>, s: SS, k: nat, z: FS)
+    requires k <= lps.len(), k <= sts.len(),
+        forall|j: int| 0 <= j < k ==> ((#[trigger] lps[j]).degree_bound is Some ==> sts[j].shifted_rand->Some_0.blinding_polynomial.len() == 0)
+    ensures m_csr(lps, sts, s, k, z) == f_zero(), m_nondegenerate(lps, sts, s, k, z)
+    decreases k
+{
+    if k > 0 {
+        let j = (k - 1) as nat;
+        lemma_marlin_nonhiding_is_nondegenerate(lps, sts, s, j, z);
+        if lps[j as int].degree_bound is Some { lemma_mul_zero(m_xi1(lps, s, j)); ax_add_zero(f_zero()); }
+    }
+}
+// the size hypotheses of the completeness lemma are what MarlinKZG10::commit's admission clauses give (for a well-formed key and polynomials in normal form)
+//@lemma props=C01
+pub proof fn lemma_marlin_sizes_from_commit(ck: &CommitterKey, lp: &LabeledPolynomial, cm: &LabeledCommitment<Commitment>, st: &Randomness)
+    requires ck_wf(ck), lp.polynomial.wf(), marlin_admissible(ck, lp), marlin_hiding_ok(ck, lp, true), marlin_commit_one(ck, lp, cm, st)
+    ensures m_lens_ok(ck, lp, st)
+{
+    let p = lp.polynomial;
+    if p.len() > 0 { assert(p.coeffs@[p.len() - 1]@ != f_zero()); assert(!p.is_zero_spec()); }
+    if lp.degree_bound is Some {
+        let eb = ck.enforced_degree_bounds->Some_0@; let d = lp.degree_bound->Some_0;
+        let i = choose|i: int| 0 <= i < eb.len() && eb[i] == d;
+        assert(eb[i] <= eb[eb.len() - 1]);
+    }
 }
